@@ -44,6 +44,8 @@ def check(run):
                         "leak along the walk and none in the JSON form" % (nr, depth))
     run.assumptions += ["objects embedded by value carry no bto/bcc in the generated trees (cleaning them is not demanded)",
                         "intransitive activities and questions are walked like objects (the statement names activities only)"]
+    from props import lifecommon
+    lifecommon.run_life(run, "clean", "clean")
 
 
 def replay(run, path):
